@@ -39,7 +39,9 @@ def gather(tier, rng):
     take("two-input", c04.make_cases(tier, rng))
     take("flatten", c05.make_cases(tier, rng))
     take("subjects", c06.make_cases(tier, rng))
-    take("behavior", c12.make_cases(tier, rng))
+    # (without the histories in which a callback reads the subject back: re-entering a thread-safe subject from a callback is
+    #  outside the claim, see C12)
+    take("behavior", [c for c in c12.make_cases(tier, rng) if "peekcb" not in c[1]])
     take("unsubscribe-chains", c02.chain_cases(tier, rng))
     take("unsubscribe-two-input", c02.op2_cases(tier, rng))
     take("unsubscribe-flatten", c02.flatten_cases(tier, rng))
